@@ -21,15 +21,25 @@ open Units UNum
 theorem unitTable_names : Gen.unitNames = KU.all.map (fun k => k.name.map Char.toNat) := by
   decide +kernel
 
-/-- FULL (table with the three defect groups separated, i.e. with the entries between two
-different units of {em,ex,ch}, of {vmin,vmax} and of {%,fr,unitless} removed): for every
-ordered pair of the 29 units the running code converts exactly when CSS fixes a ratio,
-and the f64 factor is within 2 ulp of the exact ratio (π enclosed to 30 decimals). -/
-theorem unitTable_matches_css : matchesCss (separate Gen.scaleBits) = true := by
+/-- FULL, about the table exactly as the running code computes it (holds since the repairs
+f3431cd and 662f413 separated em/ex/ch, vmin/vmax and %/fr/unitless): for every ordered
+pair of the 29 units the code converts exactly when CSS fixes a ratio, and the f64 factor is
+within 2 ulp of the exact ratio (for every π inside the enclosure of `pi_enclosure`). -/
+theorem unitTable_matches_css : matchesCss Gen.scaleBits = true := by
   decide +kernel
 
-/-- PARTIAL (table as the code computes it): the same on every pair outside
-{em,ex,ch}², {vmin,vmax}², {%,fr,unitless}². -/
+/-- the same for the table with the three former defect groups forcibly separated
+(`separate` removes the entries between two different units of {em,ex,ch}, {vmin,vmax},
+{%,fr,unitless}); this was the full statement while those groups were convertible in the
+code and is kept as a regression anchor: now `separate` changes nothing. -/
+theorem unitTable_matches_css_separated : matchesCss (separate Gen.scaleBits) = true := by
+  decide +kernel
+
+theorem unitTable_separate_noop : separate Gen.scaleBits = Gen.scaleBits := by
+  decide +kernel
+
+/-- PARTIAL (superseded by `unitTable_matches_css`; documents the code before the repairs):
+agreement with CSS on every pair outside {em,ex,ch}², {vmin,vmax}², {%,fr,unitless}². -/
 theorem unitTable_matches_css_partial : matchesCssExcept Gen.scaleBits = true := by
   decide +kernel
 
